@@ -187,7 +187,7 @@ def run(ctx):
     for case in ctx.mine(boundary_cases()):
         body(case, ctx.rec, cap)
     # (b) histories
-    n = ctx.share(1200 if ctx.quick else 20000)
+    n = ctx.share(4000 if ctx.quick else 32000)
     explore(ctx, cases(25 if ctx.quick else 200), lambda c, r: body(c, r, cap), n)
 
 
